@@ -1,5 +1,115 @@
-(* STUB: Impl model of rimt.rs -- to be written *)
-From Coq Require Import NArith List.
-From ACPI Require Import Lib.Bytes Lib.Sx Lib.Machine Impl.Checksum Impl.Table Impl.Fields Impl.Run.
+(* Impl model of rimt.rs (RISC-V IO Mapping Table).  Case vocabulary: see Spec/RimtS.v. *)
+From Coq Require Import NArith List Bool.
+From ACPI Require Import Lib.Bytes Lib.Sx Lib.Machine Impl.Checksum Impl.Table Impl.Fields Impl.Run Impl.Madt.
 Import ListNotations.
-Definition rimt_case (md : mode) (c : sx) : list ev := [EvPanic].
+Open Scope N_scope.
+
+(* Option<T> arguments: () = None, (v) = Some v *)
+Definition opt_num (x : sx) : option (option N) :=
+  match x with SL [] => Some None | SL [SA v] => Some (Some v) | _ => None end.
+
+Definition truthy (v : N) : bool := negb (v =? 0).
+
+(* Option<PciDevice>: () | ((segment bus device function)); PciDevice::new asserts device < 32, function < 8.
+   Result: Some (as_segment, as_bdf) *)
+Definition rimt_pci (x : sx) : option (option (N * N)) :=
+  match x with
+  | SL [] => Some None
+  | SL [SL [SA seg; SA bus; SA dev; SA fn]] => do _ <- pci_ok dev fn; Some (Some (seg, bdf bus dev fn))
+  | _ => None
+  end.
+
+(* InterruptWire (num level_trig polarity_high aplic_id): to_aml_bytes = dword num, word flags, word aplic_id *)
+Definition wire_bytes (w : sx) : option (list N) :=
+  match w with
+  | SL [SA num; SA lvl; SA pol; SA aplic] =>
+      let flags := N.lor (if truthy lvl then 1 else 0) (if truthy pol then 2 else 0) in
+      Some (d4 num ++ w2 flags ++ w2 aplic)
+  | _ => None
+  end.
+
+(* Option<Vec<InterruptWire>>: () = None, ((w ...)) = Some(vec) *)
+Definition rimt_wires (x : sx) : option (list (list N)) :=
+  match x with
+  | SL [] => Some []
+  | SL [SL ws] => sx_list_all wire_bytes ws
+  | _ => None
+  end.
+
+(* IdMapping (src dst num (104 k) ats pri rciep): five dwords; the IommuOffset is the handle of an earlier add_iommu *)
+Definition idmap_bytes (s : tbl) (m : sx) : option (list N) :=
+  match m with
+  | SL [SA src; SA dst; SA num; href; SA ats; SA pri; SA rciep] =>
+      do h <- handle_ref s href;
+      let flags := N.lor (N.lor (if truthy ats then 1 else 0) (if truthy pri then 2 else 0)) (if truthy rciep then 4 else 0) in
+      Some (d4 src ++ d4 dst ++ d4 num ++ d4 (cast U32 h) ++ d4 flags)
+  | _ => None
+  end.
+
+(* Option<Vec<IdMapping>> *)
+Definition rimt_maps (s : tbl) (x : sx) : option (list (list N)) :=
+  match x with
+  | SL [] => Some []
+  | SL [SL ms] => sx_list_all (idmap_bytes s) ms
+  | _ => None
+  end.
+
+(* Iommu: len() = 32 + 8 * num_int_wires; to_aml_bytes asserts len() <= u16::MAX first *)
+Definition iommu_len (nwires : N) : N := 32 + 8 * nwires.
+Definition iommu_bytes (id : N) (base : option N) (pci : option (N * N)) (prox : option N) (wires : list (list N)) : list N :=
+  let n := N.of_nat (length wires) in
+  let flags := N.lor (match pci with Some _ => 1 | None => 0 end) (match prox with Some _ => 2 | None => 0 end) in
+  b1 0 ++ b1 1 ++ w2 (iommu_len n) ++ w2 id ++ w2 0 ++ q8 (match base with Some b => b | None => 0 end) ++ d4 flags
+  ++ w2 (match pci with Some p => fst p | None => 0 end) ++ w2 (match pci with Some p => snd p | None => 0 end)
+  ++ d4 (match prox with Some p => p | None => 0 end) ++ w2 n ++ w2 32 ++ concat wires.
+
+(* PcieRootComplex: len() = 16 + 20 * num_id_mappings *)
+Definition pcierc_len (nmaps : N) : N := 16 + 20 * nmaps.
+Definition pcierc_bytes (id seg : N) (ats pri : bool) (maps : list (list N)) : list N :=
+  let n := N.of_nat (length maps) in
+  let flags := N.lor (if ats then 1 else 0) (if pri then 2 else 0) in
+  b1 1 ++ b1 1 ++ w2 (pcierc_len n) ++ w2 id ++ w2 seg ++ d4 flags ++ w2 16 ++ w2 n ++ concat maps.
+
+(* Platform: id_mapping_offset() = 12 + name.len() + 1; len() = id_mapping_offset() + 20 * num_id_mappings *)
+Definition platform_moff (name : list N) : N := 12 + N.of_nat (length name) + 1.
+Definition platform_len (name : list N) (nmaps : N) : N := platform_moff name + 20 * nmaps.
+Definition platform_bytes (id : N) (name : list N) (maps : list (list N)) : list N :=
+  let n := N.of_nat (length maps) in
+  b1 2 ++ b1 1 ++ w2 (platform_len name n) ++ w2 id ++ w2 0 ++ w2 (platform_moff name) ++ w2 n
+  ++ concat (map b1 name) ++ b1 0 ++ concat maps.
+
+Definition rimt_new (c : sx) : option tbl :=
+  match c with
+  | SL [o; t; r] =>
+      do h <- sx_hdr [82; 73; 77; 84] 1 o t r;          (* "RIMT" *)
+      Some (tbl_new KRimt h [])
+  | _ => None
+  end.
+
+(* add_*: update_header(dev.u8sum(), dev.len() as u32); handle_offset += dev.len(); push.
+   u8sum runs the serialiser, whose first statement is assert!(self.len() <= u16::MAX) *)
+Definition rimt_addition (s : tbl) (o : sx) : option addition :=
+  match o with
+  | SL [SA 1; SA id; base; pci; prox; wires] =>            (* add_iommu -> IommuOffset *)
+      do b <- opt_num base; do p <- rimt_pci pci; do px <- opt_num prox; do ws <- rimt_wires wires;
+      let len := iommu_len (N.of_nat (length ws)) in
+      do _ <- assert (len <=? 65535);
+      Some {| a_style := SumAdd; a_claimed := len; a_bytes := iommu_bytes id b p px ws; a_returns := true; a_flag := t_flag s |}
+  | SL [SA 2; SA id; SA seg; SA ats; SA pri; maps] =>      (* add_pcie_root_complex *)
+      do ms <- rimt_maps s maps;
+      let len := pcierc_len (N.of_nat (length ms)) in
+      do _ <- assert (len <=? 65535);
+      Some {| a_style := SumAdd; a_claimed := len; a_bytes := pcierc_bytes id seg (truthy ats) (truthy pri) ms;
+              a_returns := false; a_flag := t_flag s |}
+  | SL [SA 3; SA id; name; maps] =>                        (* add_platform *)
+      do nm <- sx_bytes name; do ms <- rimt_maps s maps;
+      let len := platform_len nm (N.of_nat (length ms)) in
+      do _ <- assert (len <=? 65535);
+      Some {| a_style := SumAdd; a_claimed := len; a_bytes := platform_bytes id nm ms; a_returns := false; a_flag := t_flag s |}
+  | _ => None
+  end.
+
+Definition rimt_step : mode -> tbl -> sx -> option (tbl * list ev) := add_step rimt_addition.
+
+Definition rimt_case (md : mode) (c : sx) : list ev :=
+  run_history (fun s => Some (tbl_image s)) (rimt_step md) rimt_new c.
